@@ -19,8 +19,28 @@ def generate(rng, tier):
         cfg = SL.gen_config(rng)
         k = rng.choice([1, 2, 3, rng.randint(1, 5)])
         ds = [SL.finish_dataset(SL.gen_dataset(rng, tier), cfg["mat"]) for _ in range(k)]
+        if i % 3 == 1:      # a global window edge exactly on a shifted grid value (0.1 + 0.2 vs 0.3)
+            d0 = rng.choice(ds)
+            off = rng.choice([0.1, 0.2, 0.3, 0.7])
+            d0["X"] = {"Offset": off}
+            xs = sorted(set(round(v, 2) for v in d0["x"]))
+            edge = round(rng.choice(xs) + off, 2)
+            if rng.random() < 0.5:
+                cfg["Qmax"], cfg["Qmin"] = edge, None
+            else:
+                cfg["Qmin"], cfg["Qmax"] = edge, None
+            d0["Qmin"] = d0["Qmax"] = None
+        if i % 4 == 2 and k > 1:   # the scattering lengths are changed between datasets
+            for d in ds[1:]:
+                if rng.random() < 0.7:
+                    d["set_before"] = {rng.choice(["btot", "bcoh"]): rng.logu(0.1, 50.0)}
+            cur = dict(cfg["mat"])
+            for d in ds:
+                cur.update(d.get("set_before") or {})
+                SL.finish_dataset(d, cur)
         cases.append({"cfg": cfg, "datasets": ds,
-                      "desc": {"n_datasets": k, "global_qmin": cfg["Qmin"] is not None, "global_qmax": cfg["Qmax"] is not None,
+                      "desc": {"n_datasets": k, "edge_on_shifted_point": i % 3 == 1, "attrs_changed_between": any(d.get("set_before") for d in ds),
+                               "global_qmin": cfg["Qmin"] is not None, "global_qmax": cfg["Qmax"] is not None,
                                "any_xoffset": any(d["X"] is not None for d in ds), "kinds": "".join(str(d["kind"]) for d in ds)}})
     return cases
 
@@ -57,7 +77,7 @@ def oracle(pystog, case, res):
                 return "dataset %d: earlier rows were modified" % i
         new_r = [np.array(post["recip"][j][n0:]) for j in range(3)]
         new_s = [np.array(post["sq"][j][n0:]) for j in range(3)]
-        x, y, e, s, ds = SL.expected_rows(cfg, d)
+        x, y, e, s, ds = SL.expected_rows(dict(cfg, mat=post.get("mat") or cfg["mat"]), d)
         if len(new_r[0]) != len(x) or len(new_s[0]) != len(x):
             lost = sorted(set(np.round(x, 2)) - set(np.round(new_r[0], 2)))[:3]
             extra = sorted(set(np.round(new_r[0], 2)) - set(np.round(x, 2)))[:3]
@@ -75,7 +95,7 @@ def oracle(pystog, case, res):
         with np.errstate(all="ignore"):
             pos_ = xs_ > 0
             xq_ = np.where(pos_, xs_, 1.0)
-            m_ = cfg["mat"]
+            m_ = post.get("mat") or cfg["mat"]
             if d["kind"] != 0:
                 s = np.where(pos_, SL.L.to_base(0, d["kind"], xq_, new_r[1], m_), 1.0)
                 ds = np.where(pos_, new_r[2] * SL.L.deriv(0, d["kind"], 0, xq_, m_), 0.0)
